@@ -657,11 +657,32 @@ Section Guards.
     end.
   Definition cls_nillable (k : cls) : bool :=
     match u_meta u k with Some m => m_nillable m | None => false end.
+  (* the element written for an instance is empty: no field yields a child element (None outside nillable
+     fields, empty lists without wrapper) and there is no Text value.  An instance of a nillable CLASS that
+     is empty keeps xsi:nil="true" (the element has no content) and the parser builds the instance from its
+     attributes all the same (ElementNode.bind: `not self.xsi_nil or self.meta.nillable`), provided no attribute
+     map of the class captures xsi:nil (finding C01-F2).  The Text field must hold None: under xsi:nil
+     ElementNode.bind_text stores None, so an empty token list of a Text field comes back as None (finding C01-F10) *)
+  Definition strict_empty (o : value) : bool :=
+    match o with
+    | VObj cl fs =>
+        match u_meta u cl with
+        | Some m => forallb (fun v => match field_of fs v with
+                                      | VNone => negb (v_nillable v)
+                                      | VList _ [] => match v_wrapper_qname v with None => negb (v_is KText v) | Some _ => false end
+                                      | _ => false
+                                      end) (get_element_vars m)
+        | None => false
+        end
+    | _ => false
+    end.
+  Definition nil_free (m : xmeta) : bool :=
+    match find_any_attributes m XSI_NIL with None => true | Some _ => false end.
 
   Definition fits_item (rec : cls -> value -> bool) (v : xvar) (x : value) : bool :=
     match vtype v with
     | TClass k => match x with
-                  | VObj cl' _ => (negb (v_nillable v) || has_content x)
+                  | VObj cl' _ => (negb (v_nillable v) || has_content x || cls_nillable cl')
                                   && (if N.eqb cl' k then rec k x else derived_ok v k cl' && rec cl' x)
                   | _ => false
                   end
@@ -753,7 +774,7 @@ Section Guards.
            | None => false
            | Some m =>
                list_eqb str_eqb (map fst fs) (map v_name (get_all_vars m))
-               && (negb (m_nillable m) || has_content o)
+               && (negb (m_nillable m) || has_content o || (strict_empty o && nil_free m))
                && forallb (fun e => fits_attr (snd e) (field_of fs (snd e))) (m_attributes m)
                && forallb (fun e => forallb (fun v => fits_elem (fits k) v (field_of fs v)) (snd e)) (m_elements m)
                && match m_text m with Some t => fits_text t (field_of fs t) | None => true end
